@@ -131,12 +131,19 @@ def run(facts, rep, tier):
     for r in sel(B, "prec"):
         n += 1
         st = set(stored_fields(r))
-        ok = "capability" in st and not (st & F40)
-        rep.oblige(ok, ("prec", r.ctx["label"]))
-        if not ok:
-            rep.add(Finding("R10.4", "precedence 1,7 over 4,0", "context '%s': stored %s; expected the capability report and no 4,0 field"
-                            % (r.ctx["label"], sorted(st & (F40 | F17))), None))
-    rep.instances("R10.4", n, floor=1)
+        if "bds17>bds40" in r.ctx["tags"]:
+            ok = "capability" in st and not (st & F40)
+            rep.oblige(ok, ("prec", r.ctx["label"]))
+            if not ok:
+                rep.add(Finding("R10.4", "precedence 1,7 over 4,0", "context '%s': stored %s; expected the capability report and no 4,0 field"
+                                % (r.ctx["label"], sorted(st & (F40 | F17))), None))
+        if "bds50>bds60" in r.ctx["tags"]:
+            ok = F50 <= st and not (st & (F60 | FMET | F40))
+            rep.oblige(ok, ("prec", r.ctx["label"]))
+            if not ok:
+                rep.add(Finding("R10.4", "first match wins: 5,0 over 6,0 / meteo", "context '%s' (an MB field valid as 5,0 and as 6,0): stored %s; "
+                                "expected all 5,0 fields and nothing of 6,0 / 4,4 / 4,5" % (r.ctx["label"], sorted(st & (F50 | F60 | FMET | F40))), None))
+    rep.instances("R10.4", n, floor=2)
     # ---- R10.5 / R10.6 on the forced-valid contexts
     n5 = n6 = 0
 
